@@ -313,6 +313,25 @@ func drivers(tier string, race bool) []driver {
 		v4, _ := b.GetValue(2)
 		return expect("ParOr", fmt.Sprint(v1, v2, v3, v4, b.GetCardinality()), fmt.Sprint(1<<30, 1, -2, -3, 7))
 	})
+	add("roaring64.BSI ParOr (narrow input whose planes are copy-on-write bitmaps)", b2, func() (string, string) {
+		// planes installed through FromBitmaps may be copy-on-write bitmaps; cloning such a bitmap writes to it, and
+		// the sign plane of a narrow input is handed to every plane goroutine above its width
+		mkCOW := func(vs ...uint64) roaring64.Bitmap {
+			b := roaring64.New()
+			b.SetCopyOnWrite(true)
+			b.AddMany(vs)
+			return *b
+		}
+		narrow := roaring64.NewDefaultBSI()
+		narrow.FromBitmaps([]roaring64.Bitmap{mkCOW(1), mkCOW(1), mkCOW(1)}) // column 1 holds -1
+		wide := roaring64.NewDefaultBSI()
+		wide.SetValue(2, 1<<5)
+		res := roaring64.NewDefaultBSI()
+		res.ParOr(2, narrow, wide)
+		v1, _ := res.GetValue(1)
+		v2, _ := res.GetValue(2)
+		return expect("ParOr", fmt.Sprint(v1, v2, res.GetCardinality()), "-1 32 2")
+	})
 	add("BitSliceIndexing.BSI ClearValues(own existence bitmap)", b2, func() (string, string) {
 		b := mk32()
 		b.ClearValues(b.GetExistenceBitmap()) // the found set is the bitmap the call itself clears
